@@ -366,7 +366,7 @@ func GenCase(p *Profile) *rapid.Generator[Case] {
 		if !p.PlainNames && uni(t, 100, "nameset") < 40 {
 			c.Cfg.NameSet = 1 + uni(t, len(NameSets)-2, "namesetidx")
 		}
-		if p.HugeNames && uni(t, 100, "hugename") < 3 {
+		if p.HugeNames && uni(t, 100, "hugename") < 1 {
 			c.Cfg.NameSet = len(NameSets) - 1
 		}
 		curNameSet = c.Cfg.NameSet
